@@ -103,6 +103,27 @@ SDateWhy(r) ==
          THEN "static: nth_weekday_of_month"
     ELSE ""
 
+\* ---- op "dwith": Date::with() (scope "beyond": not part of C01's wording) ---------------
+\* ykind 0 keep / 1 year / 2 CE era year / 3 BCE era year; mset, mv; dkind 0 keep / 1 day of month /
+\* 2 day of year / 3 day of year ignoring leap days
+DWithWhy(r) ==
+  LET Y == CASE r.ykind = 0 -> r.o[1] [] r.ykind = 1 -> r.yv [] r.ykind = 2 -> r.yv [] OTHER -> 1 - r.yv
+      yok == CASE r.ykind = 0 -> TRUE [] r.ykind = 1 -> r.yv \in YearMin..YearMax
+               [] r.ykind = 2 -> r.yv \in 1..9999 [] OTHER -> r.yv \in 1..10000
+      M == IF r.mset = 1 THEN r.mv ELSE r.o[2]
+      mok == M \in 1..12
+      exp == IF ~yok \/ ~mok THEN <<>>
+             ELSE CASE r.dkind = 0 -> IF ValidDate(Y, M, r.o[3]) THEN <<Y, M, r.o[3]>> ELSE <<>>
+                    [] r.dkind = 1 -> IF ValidDate(Y, M, r.dv) THEN <<Y, M, r.dv>> ELSE <<>>
+                    [] r.dkind = 2 -> IF r.dv \in 1..DaysInYear(Y) THEN DateOfEpochDay(EpochDayOf(Y, 1, 1) + r.dv - 1) ELSE <<>>
+                    [] OTHER -> IF r.dv \in 1..365
+                                THEN DateOfEpochDay(EpochDayOf(Y, 1, 1) + r.dv - 1 + (IF IsLeap(Y) /\ r.dv >= 60 THEN 1 ELSE 0))
+                                ELSE <<>>
+  IN IF exp = <<>> THEN (IF r.st = "err" THEN "" ELSE "Date::with() accepted an invalid combination")
+     ELSE IF r.st # "ok" THEN "Date::with() refused a valid combination"
+     ELSE IF r.res # exp THEN "Date::with(): not the date the fields denote"
+     ELSE ""
+
 Why(r) ==
   IF "st" \in DOMAIN r /\ r.st = "panic" THEN "panic"
   ELSE CASE r.op = "date"   -> DateWhy(r)
@@ -110,6 +131,7 @@ Why(r) ==
          [] r.op = "nthwd"  -> NthWdWhy(r)
          [] r.op = "isonew" -> IsoNewWhy(r)
          [] r.op = "sdate"  -> SDateWhy(r)
+         [] r.op = "dwith"  -> DWithWhy(r)
          [] OTHER           -> "unknown op"
 
 Init == l = 1
